@@ -15,7 +15,7 @@ BOUNDS = {
     "thorough": {"plus": "ups2, clock+3600, bulk51; BFS to fixpoint (state cap 150 000 / 25 min wall cap, reported if hit)"},
 }
 RULE = (
-    "BFS to fixpoint over histories of event writes, reads, bucket ops and clock steps (+5, +6 virtual seconds: elapsed 10 = no flush, 11 = grey, >= 12 = must flush), deduplicated as in C06; 'previous flush' = latest of (store open, last COMMIT seen on the connection, last operation return at which nothing was pending); "
+    "BFS to fixpoint over histories of event writes, reads, bucket ops and clock steps (+5, +6 virtual seconds: elapsed 10 = no flush, 11 = grey, >= 12 = must flush), deduplicated as in C06; 'previous flush' = latest of (store open, last COMMIT seen on the connection) -- an empty buffer is not a flush; the virtual machine's local zone is UTC-5 (naive local and naive UTC times differ); "
     "non-trivial = event writes that return more than 11 virtual seconds after the previous flush"
 )
 ASSUMPTIONS = [
